@@ -1,0 +1,19 @@
+//go:build verif
+
+package concurrency
+
+import "k8s.io/utils/clock"
+
+// VerifHook, when set by a verification harness, is called at the named
+// points. It is only compiled with the "verif" build tag.
+//   - "addcloser.afterCheck": AddCloser passed its closing check and is about to take the lock
+var VerifHook func(point string)
+
+func verifPoint(point string) {
+	if h := VerifHook; h != nil {
+		h(point)
+	}
+}
+
+// VerifSetClock replaces the manager's clock (grace period timer).
+func (c *RunnerCloserManager) VerifSetClock(clk clock.Clock) { c.clock = clk }
